@@ -164,6 +164,15 @@ def _gen_case(rng: random.Random, k: int) -> Dict[str, Any]:
                 if got != want:
                     for pfx in ("C10", "C12"):
                         member_msgs.append(f"{pfx}/layout-membership| vehicle {vid} holds memberships {sorted(got)} after loading; the fleets file and its home base give {sorted(want)}")
+            # a base that is some human driver's home carries the private membership of (at least one of)
+            # the vehicles homed there: it is not open to everybody
+            for bid in sorted(base_ids_):
+                homed = [r["vehicle_id"] for r in veh_rows if r["home_base_id"] == bid]
+                if homed:
+                    got = set(sim.bases[bid].membership.memberships)
+                    if not any(f"{vid}_private_{bid}" in got for vid in homed):
+                        member_msgs.append(f"C10/layout-home-base| base {bid} is the home base of {homed} but holds memberships {sorted(got)} after loading: "
+                                           f"none of their private memberships, so it is open to vehicles it should refuse")
         except Exception as e:
             raised = f"{type(e).__name__}: {e}"[:200]
         link = lambda c: n.get("link", f"{c}-{c}")
